@@ -1652,7 +1652,10 @@ class SizeParamGatherer(
 
     def map_function_definition(self, expr: FunctionDefinition
                                 ) -> frozenset[SizeParam]:
-        return self.combine(*[self.rec(ret)
+        # the function body is a separate name space: do not share the array
+        # cache with the caller's expressions
+        new_mapper = self.clone_for_callee(expr)
+        return self.combine(*[new_mapper(ret)
                               for ret in expr.returns.values()])
 
     def map_call(self, expr: Call) -> frozenset[SizeParam]:
